@@ -130,6 +130,28 @@ def _known_not_none(fn, load, v: str) -> bool:
     return False
 
 
+def _is_yaml_child(fn, name: str) -> bool:
+    """a local bound (once) to an element of a node's child list: the loop variable of `for k, v in X.value`, or a target of
+    `k, v = X.value[i]` / `v = X.value[i][j]` - PyYAML's composer puts nodes there, never None"""
+    stores = [n for n in ast.walk(fn) if isinstance(n, ast.Name) and n.id == name and not isinstance(n.ctx, ast.Load)]
+    if len(stores) != 1:
+        return False
+
+    def child_list(e) -> bool:
+        return isinstance(e, ast.Attribute) and e.attr == 'value' and _is_chain(e)
+    for st in ast.walk(fn):
+        if isinstance(st, (ast.For, ast.comprehension)) and any(x is stores[0] for x in ast.walk(st.target)):
+            return child_list(st.iter)
+        if isinstance(st, ast.Assign) and any(x is stores[0] for t in st.targets for x in ast.walk(t)):
+            v = st.value
+            while isinstance(v, ast.Subscript) and isinstance(v.slice, ast.Constant):
+                v = v.value
+                if child_list(v):
+                    return True
+            return False
+    return False
+
+
 def _dfs(n):
     """nodes in program (depth-first, source) order"""
     yield n
@@ -896,6 +918,12 @@ class _Norm(ast.NodeTransformer):
                 if self._default_into_arms(fn, s, nx, nx2):
                     i += 1          # the default assignment is gone; continue with the if statement
                     continue
+            # N16t: total jump threading - every leaf of the selection binds v to a value for which `v is [not] None` is decided:
+            # each leaf continues with the arm of the following if/else that it selects, and the if/else goes
+            if isinstance(s, ast.If) and isinstance(nx, ast.If) and nx.orelse and self._thread_total(fn, s, nx):
+                out.append(s)
+                i += 2
+                continue
             # N16: jump threading - a leaf of an if-chain binds v to a constant and the very next statement is a guard on v
             if isinstance(s, ast.If) and isinstance(nx, ast.If) and not nx.orelse and nx.body \
                     and isinstance(nx.body[-1], (ast.Return, ast.Raise)):
@@ -1158,6 +1186,53 @@ class _Norm(ast.NodeTransformer):
         return True
 
     @staticmethod
+    def _thread_total(fn, s: ast.If, nx: ast.If) -> bool:
+        import copy
+        t = nx.test
+        if not (isinstance(t, ast.Compare) and len(t.ops) == 1 and isinstance(t.ops[0], (ast.Is, ast.IsNot)) and isinstance(t.left, ast.Name)
+                and isinstance(t.comparators[0], ast.Constant) and t.comparators[0].value is None):
+            return False
+        v = t.left.id
+        if _captured(fn, v) or any(isinstance(n, (ast.Break, ast.Continue)) for b in nx.body + nx.orelse for n in ast.walk(b)):
+            return False
+        none_arm, obj_arm = (nx.body, nx.orelse) if isinstance(t.ops[0], ast.Is) else (nx.orelse, nx.body)
+        leaves = []
+
+        def is_none(e):
+            if isinstance(e, ast.Constant):
+                return e.value is None
+            if isinstance(e, (ast.JoinedStr, ast.Tuple, ast.List, ast.Dict, ast.Set)):
+                return False
+            if isinstance(e, ast.Name) and _is_yaml_child(fn, e.id):
+                return False
+            if isinstance(e, ast.Call) and isinstance(e.func, ast.Attribute) and e.func.attr in _NONNULL_RESULTS[0]:
+                return False
+            return None
+
+        def collect(n: ast.If) -> bool:
+            for arm in (n.body, n.orelse):
+                if not arm:
+                    return False
+                last = arm[-1]
+                if isinstance(last, ast.If):
+                    if not collect(last):
+                        return False
+                elif isinstance(last, (ast.Return, ast.Raise)):
+                    continue
+                elif isinstance(last, ast.Assign) and len(last.targets) == 1 and isinstance(last.targets[0], ast.Name) \
+                        and last.targets[0].id == v and is_none(last.value) is not None:
+                    leaves.append((arm, is_none(last.value)))
+                else:
+                    return False
+            return True
+        if not collect(s) or not leaves:
+            return False
+        # v must not be bound anywhere else before (the selection is its only source)
+        for arm, none in leaves:
+            arm.extend(copy.deepcopy(b) for b in (none_arm if none else obj_arm))
+        return True
+
+    @staticmethod
     def _thread_guard(fn, s: ast.If, nx: ast.If):
         """`if a: ..; v = None  else: ..; v = e` + `if v is None: S` (S ends in return/raise)  ->  the leaf that binds the constant
         continues with S directly (and loses the then dead store); the guard stays for the other leaves"""
@@ -1204,6 +1279,8 @@ class _Norm(ast.NodeTransformer):
                 and isinstance(e.func.value, ast.Constant) and isinstance(e.func.value.value, str)) or (
                 # a method of this module whose declared result is an object, never None (`def get_attribute(..) -> Node`)
                 isinstance(e, ast.Call) and isinstance(e.func, ast.Attribute) and e.func.attr in _NONNULL_RESULTS[0])
+            if not never_none and isinstance(e, ast.Name):
+                never_none = _is_yaml_child(fn, e.id)
             if never_none and isinstance(t, ast.Compare) and t.comparators[0].value is None and isinstance(t.ops[0], (ast.Is, ast.IsNot)):
                 return True, nonnull
             return False, None
